@@ -1,0 +1,23 @@
+//go:build verif
+// +build verif
+
+package service
+
+import (
+	"net"
+	"net/http"
+
+	"github.com/cnotch/ipchub/provider/auth"
+)
+
+// Accessors for the verification harness (build tag verif only): the harness drives the
+// real mux (interceptors and handlers) in-process instead of going through Listen.
+
+// VerifHandler returns the service's HTTP handler (the mux with /api/ and /streams/).
+func (s *Service) VerifHandler() http.Handler { return s.http.Handler }
+
+// VerifTokens returns the service's token manager.
+func (s *Service) VerifTokens() *auth.TokenManager { return s.tokens }
+
+// VerifAcceptRTSP hands a connection to the RTSP accept handler of the service.
+func (s *Service) VerifAcceptRTSP(c net.Conn) { s.rtsp.OnAccept(c) }
